@@ -25,11 +25,14 @@ CCollOk(e, FINDING) == /\ e.area2 = 0
    /\ IF FINDING THEN e.cx = 0 /\ e.cy = 0
       ELSE IF e.dim = 0 THEN CentroidOk(e, PointsCentroid(e.pts))
       ELSE (SumSeq(e.lens, 1) > 0 => CentroidOk(e, LineCentroid(e.line, e.lens)))
-SegOk(e) == LET r == SegD2(e.a, e.b, e.p) IN Abs(e.q * r[2] - 10000 * r[1]) <= r[2] /\ (e.zero = 1) = (r[1] = 0)
+\* (a logged value far above the expected one is rejected before it is multiplied: TLC integers are 32 bit, and an
+\* overflow would stop the run instead of rejecting the event)
+NotFar(q, r) == q <= (10000 * r[1]) \div r[2] + 3
+SegOk(e) == LET r == SegD2(e.a, e.b, e.p) IN NotFar(e.q, r) /\ Abs(e.q * r[2] - 10000 * r[1]) <= r[2] /\ (e.zero = 1) = (r[1] = 0)
 DistOk(e) == IF Segs(e.paths) = {} /\ e.pts = <<>> THEN e.inf = 1
              ELSE LET S == {SegD2(s[1], s[2], e.p) : s \in Segs(e.paths)} \cup {<<D2(e.pts[i], e.p), 1>> : i \in 1..Len(e.pts)}
                       m == CHOOSE x \in S : \A y \in S : RatLE(x, y) IN
-                  /\ e.inf = 0 /\ Abs(e.q * m[2] - 10000 * m[1]) <= m[2] + m[2] /\ (e.zero = 1) = (m[1] = 0)
+                  /\ e.inf = 0 /\ NotFar(e.q, m) /\ Abs(e.q * m[2] - 10000 * m[1]) <= m[2] + m[2] /\ (e.zero = 1) = (m[1] = 0)
                   /\ e.qi = e.q                                        \* DistanceFromWithIndex agrees
 \* DistanceFromWithIndex on a multi-part geometry (multipolygon, multi line string, polygon, collection incl. nested
 \* multipolygons): the distance is the minimum over all parts
@@ -38,7 +41,7 @@ DistIdxOk(e) == LET n == Len(e.groups)
                     best == CHOOSE i \in 1..n : \A j \in 1..n : RatLE(M(i), M(j)) IN
                 \* (the index itself is not judged: no listed property speaks about it, and for a Polygon the code returns
                 \* the index of the matching segment inside the ring, not of the ring - see DESIGN.md, observations)
-                /\ Abs(e.q * M(best)[2] - 10000 * M(best)[1]) <= M(best)[2] + M(best)[2]
+                /\ NotFar(e.q, M(best)) /\ Abs(e.q * M(best)[2] - 10000 * M(best)[1]) <= M(best)[2] + M(best)[2]
 RECURSIVE PathsBracket(_, _)
 PathsBracket(ps, i) == IF i > Len(ps) THEN <<0, 0>> ELSE LET a == LenBracket(ps[i], 1) b == PathsBracket(ps, i + 1) IN <<a[1] + b[1], a[2] + b[2]>>
 LenOk(e) == LET br == PathsBracket(e.paths, 1) IN br[1] - 1 <= e.q /\ e.q <= br[2] + 1
